@@ -2409,10 +2409,11 @@ class Parameters:
             subobjs.append(subobj)
 
         dep_obj = param_dep.cls if param_dep.inst is None else param_dep.inst
-        if dep_obj not in subobjs[:-1]:
+        # (the very object, not one that merely compares equal to it)
+        depth = next((i for i, o in enumerate(subobjs[:-1]) if o is dep_obj), None)
+        if depth is None:
             return None, None, param_dep.what
 
-        depth = subobjs.index(dep_obj)
         callback = None
         if depth > 0:
             def callback(*events):
